@@ -431,6 +431,17 @@ class CallSites:
         self._est = {}
         self._inherit = {}
         self.T = prog.enum("cbor_type")
+        # the copy routine and the unit-internal routines it recurses through (item in, owned item out): the named
+        # invariant "a copy has the type, width and flavour of its source" (justified by C11.shape on the routine that
+        # dispatches on the type) holds for each of them
+        self.copy_routines = {"cbor_copy"}
+        if "cbor_copy" in prog.funcs:
+            unit = prog.funcs["cbor_copy"].unit
+            for n in eff.transitive_callees("cbor_copy"):
+                g = prog.funcs.get(n)
+                if g is not None and g.internal and g.unit == unit and g.params and g.params[0]["type"] == "%struct.cbor_item_t*" and \
+                        g.ret_type == "%struct.cbor_item_t*" and (n in eff.transitive_callees(n)):
+                    self.copy_routines.add(n)
 
     # what a constructor / builder establishes about the item it returns
     def established(self, fname):
@@ -497,7 +508,7 @@ class CallSites:
                 if inh is not None:
                     pts &= inh
         # named invariant (justified by C11.shape): a copy has the type, width and flavour of its source
-        if isinstance(x, tuple) and x[0] == "call" and x[1] == "cbor_copy" and depth < 3:
+        if isinstance(x, tuple) and x[0] == "call" and x[1] in self.copy_routines and depth < 3:
             ce = [ev for ev in pa.events if ev.kind == "call" and ev.res == x]
             if ce:
                 pts &= self.pts_for(f, pa, ce[0], ce[0].args[0], depth + 1)
@@ -608,7 +619,7 @@ class CallSites:
         """yields (fn, callee, atom, ok, where, detail, path) for every internal call site x precondition atom"""
         seen = {}
         for f in (self.prog.lib_funcs() if fnames is None else [self.prog.fn(n) for n in fnames]):
-            for pa in self.cache.get(f.name):
+            for pa in self.cache.get(f.name, inline_static=True):
                 for e in pa.events:
                     if e.kind != "call" or e.ckind != "lib" or e.callee not in self.H:
                         continue
@@ -635,7 +646,7 @@ class CallSites:
                         # forwarding is only possible where the client could still satisfy the precondition on this path
                         forwarded = forwarded and bool(pts & want)
                         ok = direct or forwarded or pts <= want
-                        key = (f.name, e.ins.id, ai)
+                        key = (f.name, e.fn.name, e.ins.id, ai)
                         if key in seen and (seen[key][3] is False or ok):
                             continue
                         detail = ""
